@@ -356,8 +356,160 @@ def gen_ring_lemma(name, vars_, lhs, rhs):
     return (f'pub proof fn {name}({params})\n    ensures {rt(la)} == {rt(ra)},\n{{\n' + '\n'.join(out) + '\n}\n')
 
 
+def gen_polyerr(kv, stmts, tail, d):
+    """Rounding-error hints (standard model) for a straight-line kernel built from `*` and `mul_add` that is polynomial in one
+    argument.  For every float value v it maintains  |rv(v) - E_v| <= g(k_v) * M_v  and  |E_v| <= M_v  with E_v the exact
+    polynomial (normal form in pw(X,.)), M_v the same polynomial over |coefficients| and |X|, k_v a roundoff count, by one
+    call of lemma_fma_step / lemma_mul_step per operation.  kv: x=<argument place>  n=<number of coefficients>."""
+    sympy = _sym()
+    xplace = kv.get('x', 'x')
+    tailname = kv.get('tailname', '__r')
+    lets = []
+    for s_ in stmts:
+        if not s_.strip():
+            continue
+        for nm, ast in exprs.parse_lets([s_]):
+            lets.append((nm, ast))
+    if tail:
+        lets.append((tailname, exprs.parse_expr(tail)))
+    X, AX = sympy.Symbol('X'), sympy.Symbol('AX')
+    atomE, atomM = {}, {}          # sympy symbol -> text
+    symE, symM = {}, {}            # place -> sympy symbols
+    info = {}                      # float-term text -> (E, M, k)
+    alias = {}
+    counter = [0]
+    out = []
+    out.append(f'        let X = rv({xplace});')
+    out.append('        let AX = ab(X);')
+    out.append('        lemma_pw01(X); lemma_pw01(AX); lemma_atom_x(X);')
+    pw_done = set()
+
+    def resolve(place):
+        m_ = re.match(r'^(\w+)(.*)$', place)
+        if m_ and m_.group(1) in alias:
+            return alias[m_.group(1)] + m_.group(2)
+        return place
+
+    def need_pw(j, k):
+        if j > k:
+            j, k = k, j
+        if j < 1 or (j, k) in pw_done:
+            return
+        pw_done.add((j, k))
+        out.append(f'        lemma_pw_mul(X, {j}nat, {k}nat); lemma_pw_mul(AX, {j}nat, {k}nat);')
+
+    def textE(e):
+        return poly_text(e, atomE, X)
+
+    def textM(e):
+        return poly_text(e, atomM, AX).replace('pw(X,', 'pw(AX,')
+
+    def terms(e, atoms, V):
+        gens = list(atoms.keys())
+        P = sympy.Poly(sympy.expand(e), V, *gens) if gens else sympy.Poly(sympy.expand(e), V)
+        res = []
+        for mon, coef in P.terms():
+            rest = sympy.Rational(coef)
+            for g_, ex in zip(gens, mon[1:]):
+                rest = rest * g_ ** ex
+            res.append((mon[0], rest))
+        return res
+
+    def product_facts(ea, eb, atoms, V, text):
+        """per-monomial product facts and the expansion of (NF a)*(NF b)"""
+        ta, tb = terms(ea, atoms, V), terms(eb, atoms, V)
+        vname = 'X' if V == X else 'AX'
+        facts = []
+        for (da, ra) in ta:
+            for (db, rb) in tb:
+                lhs = f'({text(ra * V ** da)}) * ({text(rb * V ** db)})'
+                rhs = text(sympy.expand(ra * rb) * V ** (da + db))
+                req = [f'pw({vname}, 1nat) == {vname}', f'pw({vname}, 0nat) == 1real']
+                if da >= 1 and db >= 1:
+                    need_pw(da, db)
+                    lo, hi = min(da, db), max(da, db)
+                    req.append(f'pw({vname}, {lo}nat) * pw({vname}, {hi}nat) == pw({vname}, {da + db}nat)')
+                out.append(f'        assert({lhs} == {rhs}) by(nonlinear_arith)\n            requires ' + ', '.join(req) + ';')
+                facts.append(f'{lhs} == {rhs}')
+        prod = sympy.expand(ea * eb)
+        out.append(f'        assert(({text(ea)}) * ({text(eb)}) == {text(prod)}) by(nonlinear_arith)\n            requires '
+                   + ',\n                     '.join(facts) + ';')
+        return prod
+
+    def value(ast):
+        """returns (float-term text, E, M, k) for a float-valued expression, emitting the lemma calls for its operations"""
+        a = exprs.strip_paren(ast)
+        if a[0] == 'place':
+            p = resolve(exprs.canon_place(a[1]))
+            if p in info:
+                return (p,) + info[p]
+            if p == xplace:
+                return (p, X, AX, 0)
+            if p not in symE:
+                counter[0] += 1
+                symE[p] = sympy.Symbol(f'e{counter[0]}')
+                symM[p] = sympy.Symbol(f'm{counter[0]}')
+                atomE[symE[p]] = f'rv({p})'
+                atomM[symM[p]] = f'ab(rv({p}))'
+                out.append(f'        lemma_atom(rv({p}));')
+            return (p, symE[p], symM[p], 0)
+        if a[0] == 'call' and a[1] == 'mul_add':
+            (ta, ea, ma, ka) = value(a[2])
+            (tb, eb, mb, kb) = value(a[3][0])
+            (tc, ec, mc, kc) = value(a[3][1])
+            t = f'ffma({ta}, {tb}, {tc})'
+            kk = max(ka + kb, kc)
+            pe = product_facts(ea, eb, atomE, X, textE)
+            pm = product_facts(ma, mb, atomM, AX, textM)
+            ev, mv = sympy.expand(pe + ec), sympy.expand(pm + mc)
+            out.append(f'        assert({textE(ev)} == ({textE(ea)}) * ({textE(eb)}) + ({textE(ec)}));')
+            out.append(f'        assert({textM(mv)} == ({textM(ma)}) * ({textM(mb)}) + ({textM(mc)}));')
+            out.append(f'        lemma_fma_step(rv({t}), rv({ta}), {textE(ea)}, {textM(ma)}, {ka}nat, rv({tb}), {textE(eb)}, {textM(mb)}, {kb}nat, '
+                       f'rv({tc}), {textE(ec)}, {textM(mc)}, {kc}nat, dfma({ta}, {tb}, {tc}), {kk}nat, {textE(ev)}, {textM(mv)});')
+            return (t, ev, mv, kk + 1)
+        if a[0] == 'bin' and a[1] == '*':
+            (ta, ea, ma, ka) = value(a[2])
+            (tb, eb, mb, kb) = value(a[3])
+            t = f'fmul({ta}, {tb})'
+            pe = product_facts(ea, eb, atomE, X, textE)
+            pm = product_facts(ma, mb, atomM, AX, textM)
+            out.append(f'        lemma_mul_step(rv({t}), rv({ta}), {textE(ea)}, {textM(ma)}, {ka}nat, rv({tb}), {textE(eb)}, {textM(mb)}, {kb}nat, '
+                       f'dmul({ta}, {tb}), {textE(pe)}, {textM(pm)});')
+            return (t, pe, pm, ka + kb + 1)
+        raise HintError(f'operation outside the rounding-error generator: {a}')
+
+    kmax = 0
+    for name, ast in lets:
+        a = exprs.strip_paren(ast)
+        if a[0] == 'place':
+            alias[name] = resolve(exprs.canon_place(a[1]))
+            continue
+        (t, e, m, k) = value(ast)
+        out.append(f'        assert({name} == {t});')
+        info[name] = (e, m, k)
+        kmax = max(kmax, k)
+        out.append(f'        assert(ab(rv({name}) - ({textE(e)})) <= g({k}nat) * ({textM(m)}) && ab({textE(e)}) <= {textM(m)});')
+    (e, m, k) = info[tailname]
+    n = int(kv.get('n', 0))
+    out.append(f'        // final: k = {k} roundings on the critical path; the property allows 4(n+2) = {4 * (n + 2)}')
+    out.append(f'        lemma_final_bound(ab(rv({tailname}) - ({textE(e)})), {k}nat, {textM(m)}, {4 * (n + 2)}nat);')
+    if kv.get('coeffs'):
+        cs = kv['coeffs']
+        out.append(f'        assert({cs}@.len() == {n});')
+        out.append(f'        assert(psum({cs}@, X, 0nat) == 0real && pabs({cs}@, X, 0nat) == 0real);')
+        for i_ in range(1, n + 1):
+            out.append(f'        assert(psum({cs}@, X, {i_}nat) == psum({cs}@, X, {i_ - 1}nat) + rv({cs}[{i_ - 1}]) * pw(X, {i_ - 1}nat));')
+            out.append(f'        assert(pabs({cs}@, X, {i_}nat) == pabs({cs}@, X, {i_ - 1}nat) + ab(rv({cs}[{i_ - 1}])) * pw(AX, {i_ - 1}nat));')
+        out.append(f'        assert(polyval({cs}@, X) == {textE(e)});')
+        out.append(f'        assert(pabs({cs}@, X, {n}nat) == {textM(m)});')
+    global LAST_NF
+    LAST_NF = textE(e)
+    return '\n'.join(out) + '\n'
+
+
 LAST_NF = None
-GENERATORS = {'polyeval': gen_polyeval}
+GENERATORS = {'polyeval': gen_polyeval, 'polyerr': gen_polyerr}
+
 
 
 def generate(gen, kv, stmts, tail, d):
